@@ -84,6 +84,7 @@ type driver struct {
 	written   map[[2]uint64]bool   // (page, chunk) already written → later writes become reads
 	wrOfPage  map[int][]*reqRec    // writes per page (for read judgement)
 	skipped   int
+	maxOut    int
 }
 
 func newDriver(st *stack) *driver {
@@ -93,6 +94,9 @@ func newDriver(st *stack) *driver {
 	d.ctrlPort = d.addPort("Ctrl", 4)
 	for _, p := range st.c.Pages {
 		d.cur = append(d.cur, st.c.initialPage(p))
+	}
+	for _, p := range st.c.Unmapped { // addressable, not in the table
+		d.cur = append(d.cur, vm.Page{PID: vm.PID(p.PID), VAddr: p.VPN << st.c.Log2})
 	}
 	return d
 }
@@ -110,7 +114,18 @@ func (d *driver) now() timing.VTimeInPicoSec { return d.st.eng.CurrentTime() }
 
 func (d *driver) Tick() bool {
 	progress := false
+	stalled := false
+	if n := uint64(d.st.c.Stall); n > 0 && (uint64(d.now())/1000/n)%2 == 1 {
+		for _, p := range d.ports {
+			if p != d.ctrlPort && p.NumIncoming() > 0 {
+				stalled, progress = true, true // keep ticking until the window ends
+			}
+		}
+	}
 	for _, p := range d.ports {
+		if stalled && p != d.ctrlPort {
+			continue
+		}
 		for {
 			m := p.RetrieveIncoming()
 			if m == nil {
@@ -326,6 +341,9 @@ func (d *driver) track(r *reqRec) {
 	r.tIssue = d.now()
 	d.recs = append(d.recs, r)
 	d.out[r.id] = r
+	if len(d.out) > d.maxOut {
+		d.maxOut = len(d.out)
+	}
 }
 
 func (d *driver) sendAccess(opIdx int, op opCfg) {
